@@ -314,7 +314,7 @@ func init() {
 	}
 	sim.Register(&sim.Check{
 		ID: "C05", Title: "Balances never overdraw or wrap", World: "ledger",
-		Gen:   withReadFault(c05gen),
+		Gen:   c05gen,
 		Exec:  c05.Exec,
 		Quick: sim.Budget{Runs: 320, WallS: 90}, Thorough: sim.Budget{Runs: 20000, WallS: 1500},
 		LevelText: "seeded search with boundary amounts (0, 1, balance, balance+1, supply, supply+1, 2^63-1, 2^63, 2^64-1) for values and fees; reference arithmetic in math/big; rejected transactions must leave the block state root bit-identical",
